@@ -105,6 +105,7 @@ func checkC06(e *Engine, r *Report) {
 		"CustomFunctions supplied by the embedding policy mutate the allocator only through the customAllocator wrapper",
 	}
 	checkErrorPolarity(e, r, "R13 revert-on-failure", pkgLM)
+	checkErrorPropagation(e, r, "R13 revert-on-failure", pkgLM)
 	c := newLMCtx(e, r)
 	if c.zoneAssign == nil || c.zoneRemove == nil || c.revertJournal == nil || c.startJournal == nil ||
 		c.allocate == nil || c.realloc == nil || c.invalidate == nil || c.commit == nil || c.getOffer == nil {
